@@ -113,6 +113,37 @@ def rerun(a):
         print(sid, {k: v["verdict"] for k, v in res.items()}, flush=True)
 
 
+def reconfirm(a):
+    """re-confirms filed seeds whose patch was ported: patch applies, builds, repository suite passes, demonstration fails"""
+    base = os.path.join(ROOT, "seeded")
+    for sid in sorted(os.listdir(base)):
+        if a.k not in sid:
+            continue
+        mf = os.path.join(base, sid, "meta.json")
+        meta = json.load(open(mf))
+        d = fresh(sid)
+        try:
+            demo = os.path.join(base, sid, meta["demo"]["file"])
+            dest = os.path.join(d, meta["demo"]["place_in"])
+            log = {}
+            rc, o = sh(["git", "apply", os.path.join(base, sid, "patch.diff")], cwd=d)
+            log["apply"] = rc
+            rc, o = sh("go build ./...", cwd=d)
+            log["build"] = rc
+            rc, o = sh([os.path.join(ROOT, "tools", "baseline.sh"), d])
+            log["existing_tests_with_patch"] = rc
+            shutil.copy(demo, os.path.join(dest, os.path.basename(demo)))
+            rc, o = sh(meta["demo"]["run"], cwd=d)
+            log["demo_with_patch"] = rc
+            ok = log["apply"] == 0 and log["build"] == 0 and log["existing_tests_with_patch"] == 0 and log["demo_with_patch"] != 0
+        finally:
+            shutil.rmtree(d, ignore_errors=True)
+        meta["confirmed"] = ok
+        meta["reconfirmation"] = dict(log, at=time.strftime("%Y-%m-%dT%H:%M:%S"))
+        json.dump(meta, open(mf, "w"), indent=1)
+        print(sid, "confirmed" if ok else "NOT CONFIRMED", log, flush=True)
+
+
 def main():
     ap = argparse.ArgumentParser()
     sp = ap.add_subparsers(dest="cmd")
@@ -125,8 +156,12 @@ def main():
     q = sp.add_parser("run")
     q.add_argument("--tier", default="quick")
     q.add_argument("-k", default="")
+    c = sp.add_parser("reconfirm")
+    c.add_argument("-k", default="")
     a = ap.parse_args()
-    if a.cmd == "add":
+    if a.cmd == "reconfirm":
+        reconfirm(a)
+    elif a.cmd == "add":
         add(a)
     elif a.cmd == "run":
         rerun(a)
